@@ -415,3 +415,45 @@ try:
     body_r10(2, 1, 2, 1)
 except Exception:
     pass
+
+
+# ------------------------------------------------------------------ a union holding a dataclass and a subclass of it
+
+class Shape(PaneBase, rename='camel'):
+    line_width: int = 1
+
+
+class Circle(Shape):
+    radius: float = 1.0
+
+
+class Tagless(Shape):
+    pass
+
+
+U_SUB = (t.Union[Shape, Circle], t.List[t.Union[Shape, Circle]], t.Union[Circle, Shape], t.Dict[str, t.Union[Shape, Circle, None]],
+         t.Union[Shape, Tagless])
+for _u in U_SUB:
+    make_converter(_u)
+
+
+@obligation(pre="0 <= ui <= 4 and 0 <= which <= 1", witnesses=(0,), timeout=200)
+def body_subclass_union(ui: int, which: int, i: int) -> int:
+    """a value of the SUBCLASS member of Union[Base, Sub] (base listed first) is written with all its fields and reads back as the subclass"""
+    U = U_SUB[0]
+    n = 0
+    for x in U_SUB:
+        if n == ui:
+            U = x
+        n += 1
+    inner = {'lineWidth': i, 'radius': 2.5} if which == 1 else {'lineWidth': i}
+    v = inner if ui in (0, 2, 4) else ([inner] if ui == 1 else {'k': inner})
+    return roundtrip(U, v)
+
+
+for _ui in range(5):
+    for _w in (0, 1):
+        try:
+            body_subclass_union(_ui, _w, 1)
+        except Exception:
+            pass
